@@ -132,12 +132,13 @@ func zvServerSetup(t *testing.T, rng *core.Rand) *zvSrv {
 		var ok bool
 		must("kv", zvSrvCall(srv, "KVS.Apply", &structs.KVSRequest{Datacenter: "dc1", Op: api.KVSet, DirEnt: structs.DirEntry{Key: k, Value: []byte("v")}, WriteRequest: w}, &ok))
 	}
+	var sessID string
 	for _, n := range []string{"n1", "n2", "n1x", "n1"} {
-		var id string
 		must("session", zvSrvCall(srv, "Session.Apply", &structs.SessionRequest{Datacenter: "dc1", Op: structs.SessionCreate,
-			Session: structs.Session{Node: n, NodeChecks: []string{"node-chk"}}, WriteRequest: w}, &id))
+			Session: structs.Session{Node: n, NodeChecks: []string{"node-chk"}}, WriteRequest: w}, &sessID))
 	}
-	for _, q := range []structs.PreparedQuery{{Name: "q-web", Token: "captured"}, {Name: "q-db", Token: "captured"}, {Name: "q-web2"}, {}} {
+	// (an unnamed query must be bound to a session)
+	for _, q := range []structs.PreparedQuery{{Name: "q-web", Token: "captured"}, {Name: "q-db", Token: "captured"}, {Name: "q-web2"}, {Session: sessID}} {
 		q := q
 		q.Service.Service = "web"
 		var id string
@@ -145,24 +146,18 @@ func zvServerSetup(t *testing.T, rng *core.Rand) *zvSrv {
 	}
 
 	// ---- endpoints
-	dc := func(token string) any { return &structs.DCSpecificRequest{Datacenter: "dc1", QueryOptions: zvQO(token)} }
+	dc := func(token string) any {
+		return &structs.DCSpecificRequest{Datacenter: "dc1", QueryOptions: zvQO(token)}
+	}
 	hcView := func(r zvRef, c *structs.HealthCheck) (*structs.HealthCheck, bool, bool) {
 		return c, r.node(c.Node, c.PeerName) && r.svcOrNone(c.ServiceName, c.PeerName), false
 	}
 	z.endpoints = append(z.endpoints,
 		zvEP(srv, "Catalog.ListNodes", "Catalog.ListNodes", dc,
 			func(r *structs.IndexedNodes) []*structs.Node { return r.Nodes }, func(r *structs.IndexedNodes) bool { return r.ResultsFilteredByACLs },
-			func(r zvRef, n *structs.Node) (*structs.Node, bool, bool) { return n, r.node(n.Node, n.PeerName), false }),
-		zvEP(srv, "Catalog.ListServices", "Catalog.ListServices", dc,
-			func(r *structs.IndexedServices) []string {
-				var out []string
-				for k := range r.Services {
-					out = append(out, k)
-				}
-				sort.Strings(out)
-				return out
-			}, func(r *structs.IndexedServices) bool { return r.ResultsFilteredByACLs },
-			func(r zvRef, name string) (string, bool, bool) { return name, r.svc(name, ""), false }),
+			func(r zvRef, n *structs.Node) (*structs.Node, bool, bool) {
+				return n, r.node(n.Node, n.PeerName), false
+			}),
 		zvEP(srv, "Internal.NodeDump", "Internal.NodeDump", dc,
 			func(r *structs.IndexedNodeDump) []*structs.NodeInfo { return r.Dump }, func(r *structs.IndexedNodeDump) bool { return r.ResultsFilteredByACLs },
 			func(r zvRef, n *structs.NodeInfo) (*structs.NodeInfo, bool, bool) {
@@ -194,13 +189,63 @@ func zvServerSetup(t *testing.T, rng *core.Rand) *zvSrv {
 			},
 			func(r *structs.IndexedHealthChecks) []*structs.HealthCheck { return r.HealthChecks },
 			func(r *structs.IndexedHealthChecks) bool { return r.ResultsFilteredByACLs }, hcView),
-		zvEP(srv, "KVS.List", "KVS.List", func(token string) any { return &structs.KeyRequest{Datacenter: "dc1", Key: "", QueryOptions: zvQO(token)} },
+		zvEP(srv, "KVS.List", "KVS.List", func(token string) any {
+			return &structs.KeyRequest{Datacenter: "dc1", Key: "", QueryOptions: zvQO(token)}
+		},
 			func(r *structs.IndexedDirEntries) []*structs.DirEntry { return r.Entries }, func(r *structs.IndexedDirEntries) bool { return r.ResultsFilteredByACLs },
 			func(r zvRef, d *structs.DirEntry) (*structs.DirEntry, bool, bool) { return d, r.key(d.Key), false }),
-		zvEP(srv, "Session.List", "Session.List", func(token string) any { return &structs.SessionSpecificRequest{Datacenter: "dc1", QueryOptions: zvQO(token)} },
+		zvEP(srv, "Session.List", "Session.List", func(token string) any {
+			return &structs.SessionSpecificRequest{Datacenter: "dc1", QueryOptions: zvQO(token)}
+		},
 			func(r *structs.IndexedSessions) []*structs.Session { return r.Sessions }, func(r *structs.IndexedSessions) bool { return r.ResultsFilteredByACLs },
 			func(r zvRef, s *structs.Session) (*structs.Session, bool, bool) { return s, r.session(s.Node), false }),
 	)
+	// service names: the endpoint filters service INSTANCES (node and service readable) and reports the
+	// names that still have an instance; the flag tells that some instance was dropped
+	{
+		names := func(token string) ([]string, bool, error) {
+			var rep structs.IndexedServices
+			if err := zvSrvCall(srv, "Catalog.ListServices", dc(token), &rep); err != nil {
+				return nil, false, err
+			}
+			var out []string
+			for k := range rep.Services {
+				out = append(out, k)
+			}
+			sort.Strings(out)
+			return out, rep.ResultsFilteredByACLs, nil
+		}
+		z.endpoints = append(z.endpoints, zvSrvEndpoint{name: "Catalog.ListServices",
+			fetch: func(token string) (zvSrvReply, error) {
+				n, f, err := names(token)
+				return zvSrvReply{elems: n, flag: f}, err
+			},
+			expect: func(mgmt string, r zvRef) (zvSrvReply, error) {
+				all, _, err := names(mgmt)
+				if err != nil {
+					return zvSrvReply{}, err
+				}
+				var out zvSrvReply
+				for _, name := range all {
+					var rep structs.IndexedServiceNodes
+					if err := zvSrvCall(srv, "Catalog.ServiceNodes", &structs.ServiceSpecificRequest{Datacenter: "dc1", ServiceName: name, QueryOptions: zvQO(mgmt)}, &rep); err != nil {
+						return zvSrvReply{}, err
+					}
+					visible := false
+					for _, sn := range rep.ServiceNodes {
+						if r.node(sn.Node, sn.PeerName) && r.svc(sn.ServiceName, sn.PeerName) {
+							visible = true
+						} else {
+							out.flag = true
+						}
+					}
+					if visible {
+						out.elems = append(out.elems, name)
+					}
+				}
+				return out, nil
+			}})
+	}
 	// prepared queries: whole-reply semantics (management sees everything; unnamed ones vanish silently)
 	{
 		get := func(token string) (*structs.IndexedPreparedQueries, error) {
@@ -443,12 +488,12 @@ func (z *zvSrv) phase1(t *testing.T, run *core.Run, rng *core.Rand) {
 		rules := zvRandomRules(rng)
 		pol, err := acl.NewPolicyFromSource(rules, nil, nil)
 		if err != nil {
-			run.Inconclusive("policy generator: " + err.Error())
+			zvSanityFail(run, "policy generator: "+err.Error())
 			continue
 		}
 		az, err := acl.NewPolicyAuthorizerWithDefaults(acl.DenyAll(), []*acl.Policy{pol}, nil)
 		if err != nil {
-			run.Inconclusive("policy generator: " + err.Error())
+			zvSanityFail(run, "policy generator: "+err.Error())
 			continue
 		}
 		toks = append(toks, zvSrvToken{secret: z.mkToken(t, fmt.Sprintf("zv-pol-%d", i), rules, nil), rules: rules, az: az})
@@ -461,7 +506,7 @@ func (z *zvSrv) phase1(t *testing.T, run *core.Run, rng *core.Rand) {
 			core.Progress("C09", "server "+ep.name+" rules "+tk.rules)
 			exp, err := ep.expect(z.mgmt, zvRef{tk.az})
 			if err != nil {
-				run.Inconclusive("server tier: management call of " + ep.name + " failed: " + err.Error())
+				zvSanityFail(run, "server tier: management call of "+ep.name+" failed: "+err.Error())
 				break
 			}
 			if tk.secret == "" {
@@ -531,7 +576,7 @@ func (z *zvSrv) phase1(t *testing.T, run *core.Run, rng *core.Rand) {
 		}
 	}
 	if okBefore < len(z.endpoints)-2 || time.Now().After(z.rtExpiry.Add(-500*time.Millisecond)) {
-		run.Inconclusive(fmt.Sprintf("server tier: the soon-to-expire token was honoured on %d/%d endpoints only while still valid (or setup too slow)", okBefore, len(z.endpoints)))
+		zvSanityFail(run, fmt.Sprintf("server tier: the soon-to-expire token was honoured on %d/%d endpoints only while still valid (or setup too slow)", okBefore, len(z.endpoints)))
 		z.rtSecret = ""
 	}
 }
@@ -582,6 +627,6 @@ func zvServerTier(t *testing.T, run *core.Run, rng *core.Rand, between func()) {
 		between()
 	}
 	if !done {
-		run.Inconclusive("server tier: the in-process server could not be started or set up (see log); store-level checks are unaffected")
+		zvSanityFail(run, "server tier: the in-process server could not be started or set up (see log); store-level checks are unaffected")
 	}
 }
